@@ -9,6 +9,8 @@ ALL = ["C%02d" % i for i in range(1, 19)]
 BASELINE_OFF = ("cd /repo && go build ./... && go test -vet=off -count=1 -timeout 25m ./...  # guard off: no -tags verif; "
                 "info::TestBasicInfo/TestExtendedInfo need the network and are in BASELINE.always_fail")
 
+HOOK_COMMITS = []
+
 CHECKS = {
     "C13": dict(
         engine="segments",
@@ -52,6 +54,11 @@ CHECKS["C18"] = dict(engine="wire", level=("model_checking", "Wire.tla contains 
     note="edge of what TLA+ is for: messages of thousands of entries only in the thorough tier (decoder cost grows with entries); 64-bit numbers as 7-bit limbs; Go-side content equality flags trusted",
     technique="TLA+ byte-level wire-format spec (Wire.tla) checked by TLC + trace validation (TraceWire.tla) decoding the real encoders' bytes")
 
+CHECKS["C17"] = dict(engine="validate", level=("exploration", "Validate.tla defines the universe of structurally arbitrary requests; TLC enumerates it (48,690 requests) and exports every state; the harness materialises each as a real Request and pushes it through the tier1 and tier2 validation, graph construction, hashing, staging, resolution and planning code under recover(), a 2 s watchdog and a sampled heap ceiling; TraceValidate.tla judges each observed outcome against the outcome protocol (accepted, or rejected with invalid-argument; never crashed / hung). Model-derived robustness exploration, not a proof of totality.", "6/C17"),
+    note="error codes of errors produced inside Tier1Service.blocks() go through the real toConnectError (verif hook service/verif_hooks.go); the three early returns of Tier1Service.Blocks are reproduced by the driver (an ErrInvalidArg counts as invalid-argument)",
+    technique="TLA+ request-universe spec (Validate.tla) enumerated by TLC and replayed into the real request pipeline + trace validation (TraceValidate.tla)")
+HOOK_COMMITS.append("41c409bf")
+
 NOT_YET = "machinery for this property is not built yet in this revision (work in progress; see DESIGN.md section 9 for the plan)"
 
 
@@ -86,8 +93,6 @@ def main():
     json.dump(m, open(os.path.join(VERIF, "MANIFEST.json"), "w"), indent=1)
     print("wrote MANIFEST.json with %d checks, %d not_applicable" % (len(checks), len(na)))
 
-
-HOOK_COMMITS = []
 
 if __name__ == "__main__":
     main()
